@@ -58,7 +58,7 @@ def tier_of(t, L=0, cost='int', variant=False):
     if cost == 'int':
         ok = (t == 'f32' or L in (0, 4)) and not (variant and t == 'f64')
     elif cost == 'fp':
-        ok = L == 0 or (t == 'f32' and not variant)
+        ok = L == 0 or (t == 'f32' and not variant and L != 3)
     else:
         ok = L == 0 or (t == 'f32' and not variant and L in (2, 4))
     return 'quick' if ok else 'thorough'
